@@ -84,10 +84,10 @@ Proof. repeat split; vm_compute; reflexivity. Qed.
 
 (* ---------- tie to the source: the part of the model this property rests on is what /verif/translate derives from
    /repo's Go source on this run (Generated/*.v are rewritten before every build; see DESIGN.md section 9) ---------- *)
-From HC.Generated Require Import SrcHit SrcStatus.
-From HC.Proofs Require Import TieHit TieStatus.
-Theorem C09_source_decision : forall q e now, src_decide_hit q e now = decide_hit q e now.
-Proof. exact tie_decide_hit. Qed.
+From HC.Generated Require Import SrcEffects SrcStatus.
+From HC.Proofs Require Import ProgEq TieEffects TieStatus.
+Theorem C09_source_decision : forall q e k refs i, peq (src_handle_cache_hit q e k refs i) (handle_cache_hit q e k refs i).
+Proof. exact tie_handle_cache_hit. Qed.
 Theorem C09_source_heuristic_statuses : forall code, src_is_heuristically_cacheable code = is_heuristically_cacheable code.
 Proof. exact tie_is_heuristically_cacheable. Qed.
 Print Assumptions C09_source_decision.
